@@ -59,6 +59,9 @@ def run(ctx):
             return False
         created = {x[0] for x in st[0]["list"]}
         for n, text, c, order in insts:
+            if c.get("free"):
+                counts["free"] = counts.get("free", 0) + 1
+                continue
             ok = (n in created) == c["legal"]
             counts["judged"] += 1
             if not ok:
